@@ -217,9 +217,12 @@ def assemble(unit_dir, repo, vacuity=False, variables=None, probe_insert=None):
             if s.startswith("//@check_no_derive "):
                 a = _attrs(s[len("//@check_no_derive "):])
                 ds = source(a["file"]).derives(a["name"])
-                for bad in a["forbid"].split(","):
-                    if bad in ds:
+                for bad in (a.get("forbid") or "").split(","):
+                    if bad and bad in ds:
                         raise ExtractError(f"type {a['name']} now derives {bad}: ownership argument no longer applies")
+                for need in (a.get("require") or "").split(","):
+                    if need and need not in ds:
+                        raise ExtractError(f"type {a['name']} no longer derives {need}: the unit's stand-in for the derived impl does not apply")
                 i += 1; continue
             if s.startswith("//@extract_type "):
                 a = _attrs(s[len("//@extract_type "):])
@@ -413,6 +416,13 @@ def _emit_fn(g, source, a, blocks, vacuity, probe_insert=None):
         if not cnt:
             raise ExtractError(f"anchor lost: no `move || {{ .. }}` closure in {f.name}")
         rules.append(("R11d", f"{cnt} `move || {{ .. }}` closure(s) replaced by vopaque_closure(): their bodies are not verified"))
+    # R2c: an import alias of the `ready!` macro in the same file (`use futures_core::ready as NAME;`) is resolved:
+    # `NAME!(` -> `ready!(` (the unit defines `ready!` exactly as futures_core / std does)
+    for alias in set(re.findall(r"\bready\s+as\s+(\w+)", source(f.file).src)):
+        b2 = re.sub(r"\b%s!\s*\(" % re.escape(alias), "ready!(", body_src)
+        if b2 != body_src:
+            rules.append(("R2c", f"`{alias}!` is an import alias of `ready!`"))
+            body_src = b2
     body = rewrite_body(body_src, rules, intended_panics=bool(a.get("intended_panics")))
     body = apply_r9(body, rules)
     if a.get("inline_thread_body"):
@@ -753,7 +763,9 @@ def _emit_fn(g, source, a, blocks, vacuity, probe_insert=None):
     # closures without a specification: Verus treats their result as unconstrained, so a NEW one can turn a correct
     # edit into a failed obligation.  The unit declares how many each function has (`closures=N`, default 0); more than
     # that is an unsupported construct (exit 2), never a violation.
-    n_plain = _count_plain_closures(body)
+    # `err_closures`: closures that are the direct argument of `.map_err(` are not counted — the unit declares that its
+    # contracts on this function say nothing about an error VALUE beyond "is Err", so an unconstrained one cannot fail them
+    n_plain = _count_plain_closures(body, bool(a.get("err_closures")))
     f.plain_closures = n_plain
     if n_plain > int(a.get("closures", 0)):
         raise ExtractError(f"unsupported construct: {n_plain} closure(s) without a specification in {f.name} (the unit declares {a.get('closures', 0)})")
@@ -857,13 +869,16 @@ def _emit_fn(g, source, a, blocks, vacuity, probe_insert=None):
         g.reach.append(r)
 
 
-def _count_plain_closures(body):
+def _count_plain_closures(body, skip_map_err=False):
     tk = [t for t in tokenize(body) if t.kind not in ("ws", "comment")]
     n = 0
     k = 0
     while k < len(tk):
         t = tk[k]
         if t.text in ("|", "||") and k >= 1 and tk[k - 1].text in ("(", ",", "=", "move", "return", "{", ";"):
+            if skip_map_err and k >= 3 and tk[k - 1].text == "(" and tk[k - 2].text == "map_err" and tk[k - 3].text == ".":
+                k += 1
+                continue
             if t.text == "||":
                 close = k
             else:
